@@ -174,6 +174,226 @@ theorem never_handler_otherwise (m : Mechs) (b : Backend) (r : Req) (h : openidO
   obtain ⟨v, _, hv⟩ := (handler_iff m b r h u).mp hu
   exact hno v hv
 
+/-! ### The same, from the header's octets
+
+`Http.classify` is what the route table and the handlers make of the `Authorization` values
+(`Header.Get`, `r.BasicAuth()`, `HeadersRegexp`); the correspondence hands the raw values to the model. -/
+
+theorem cutColon_spec (c u p : Bytes) (h : cutColon c = some (u, p)) : c = u ++ [58] ++ p ∧ (58 : UInt8) ∉ u := by
+  induction c generalizing u with
+  | nil => simp [cutColon] at h
+  | cons x xs ih =>
+    unfold cutColon at h
+    by_cases hx : x = 58
+    · simp only [hx, if_true, Option.some.injEq, Prod.mk.injEq] at h
+      obtain ⟨rfl, rfl⟩ := h
+      simp [hx]
+    · simp only [hx, if_false, Option.map_eq_some_iff] at h
+      obtain ⟨⟨u', p'⟩, hc, he⟩ := h
+      simp only [Prod.mk.injEq] at he
+      obtain ⟨rfl, rfl⟩ := he
+      obtain ⟨h1, h2⟩ := ih u' hc
+      refine ⟨by rw [h1]; simp, ?_⟩
+      intro hm
+      rcases List.mem_cons.mp hm with e | e
+      · exact hx e.symm
+      · exact h2 e
+
+/-- **No value, or an empty first value: 401** with the enabled schemes' challenges. -/
+theorem no_value_401 (m : Mechs) (b : Backend) (rest : List Bytes) (h : openidOnly m = false) :
+    route m b (classify []) = .unauthorized (challenges m) ∧
+    route m b (classify ([] :: rest)) = .unauthorized (challenges m) := by
+  constructor <;> exact no_header_401 m b _ h (by simp [classify, credOf])
+
+/-- what a first value must look like for `credOf` to yield each kind of credential -/
+theorem credOf_ntlm (first msg : Bytes) (h : credOf first = .ntlm msg) : first = kwNTLM ++ [32] ++ msg := by
+  unfold credOf at h
+  split at h
+  · cases h
+  · split at h
+    · split at h
+      · split at h <;> cases h
+      · cases h
+    · split at h
+      · rename_i hp
+        injection h with h
+        have := List.prefix_iff_eq_append.mp (List.isPrefixOf_iff_prefix.mp hp)
+        rw [← this]
+        simp [kwNTLM] at h ⊢
+        exact h
+      · split at h <;> cases h
+
+theorem credOf_negotiate (first msg : Bytes) (h : credOf first = .negotiate msg) :
+    first = kwNegotiate ++ [32] ++ msg := by
+  unfold credOf at h
+  split at h
+  · cases h
+  · split at h
+    · split at h
+      · split at h <;> cases h
+      · cases h
+    · split at h
+      · cases h
+      · split at h
+        · rename_i hp
+          injection h with h
+          have := List.prefix_iff_eq_append.mp (List.isPrefixOf_iff_prefix.mp hp)
+          rw [← this]
+          simp [kwNegotiate] at h ⊢
+          exact h
+        · cases h
+
+theorem credOf_basic (first u p : Bytes) (h : credOf first = .basic u p) :
+    eqFold (first.take 6) (kwBasic ++ [32]) = true ∧
+    ∃ c, b64decode (first.drop 6) = some c ∧ c = u ++ [58] ++ p ∧ (58 : UInt8) ∉ u := by
+  unfold credOf at h
+  split at h
+  · cases h
+  · split at h
+    · rename_i hb
+      split at h
+      · rename_i c hc
+        split at h
+        · rename_i u' p' hcut
+          injection h with h1 h2
+          subst h1; subst h2
+          exact ⟨hb.2, c, hc, cutColon_spec c _ _ hcut⟩
+        · cases h
+      · cases h
+    · split at h
+      · cases h
+      · split at h <;> cases h
+
+/-- **Handler, from the octets.** Whatever `Authorization` values a request carries, it reaches the
+    tunnel handler as user `u` only if its *first* value is `NTLM <msg>` or `Negotiate <msg>` with a
+    message the backend authenticated as `u`, or `Basic <base64 of u:p>` (scheme in any case, `u`
+    without a colon) with the pair confirmed by the backend — and the mechanism is enabled. -/
+theorem handler_from_octets (m : Mechs) (b : Backend) (values : List Bytes) (h : openidOnly m = false)
+    (u : Option Bytes) (hr : route m b (classify values) = .handler u) :
+    ∃ v first rest, u = some v ∧ values = first :: rest ∧
+      ((m.ntlm = true ∧ ∃ msg, (first = kwNTLM ++ [32] ++ msg ∨ first = kwNegotiate ++ [32] ++ msg) ∧
+          b.ntlm msg = some (some v)) ∨
+       (m.basic = true ∧ eqFold (first.take 6) (kwBasic ++ [32]) = true ∧
+          ∃ p, b64decode (first.drop 6) = some (v ++ [58] ++ p) ∧ (58 : UInt8) ∉ v ∧ b.basicOk v p = true) ∨
+       (m.kerberos = true ∧ ∃ msg, first = kwNegotiate ++ [32] ++ msg ∧ b.spnego msg = some v)) := by
+  obtain ⟨v, hv, hc⟩ := (handler_iff m b _ h u).mp hr
+  cases values with
+  | nil =>
+    exfalso
+    have hcred : (classify []).cred = .none := by simp [classify, credOf]
+    rcases hc with ⟨_, _, h3⟩ | ⟨_, _, _, ⟨p, hp, _⟩⟩ | ⟨_, _, _, _, ⟨msg, hm, _⟩⟩
+    · rcases h3 with ⟨msg, hm, _⟩ | ⟨msg, hm, _⟩ <;> (rw [hcred] at hm; cases hm)
+    · rw [hcred] at hp; cases hp
+    · rw [hcred] at hm; cases hm
+  | cons first rest =>
+    refine ⟨v, first, rest, hv, rfl, ?_⟩
+    have hcred : (classify (first :: rest)).cred = credOf first := by simp [classify]
+    rcases hc with ⟨hn, _, h3⟩ | ⟨hb, _, _, ⟨p, hp, hok⟩⟩ | ⟨hk, _, _, _, ⟨msg, hm, hs⟩⟩
+    · refine Or.inl ⟨hn, ?_⟩
+      rcases h3 with ⟨msg, hm, hb⟩ | ⟨msg, hm, hb⟩
+      · rw [hcred] at hm; exact ⟨msg, Or.inl (credOf_ntlm _ _ hm), hb⟩
+      · rw [hcred] at hm; exact ⟨msg, Or.inr (credOf_negotiate _ _ hm), hb⟩
+    · rw [hcred] at hp
+      obtain ⟨hf, c, hdec, hc, hnc⟩ := credOf_basic _ _ _ hp
+      exact Or.inr (Or.inl ⟨hb, hf, p, by rw [hdec, hc], hnc, hok⟩)
+    · rw [hcred] at hm
+      exact Or.inr (Or.inr ⟨hk, msg, credOf_negotiate _ _ hm, hs⟩)
+
+/-- later values never supply credentials: two requests with the same first value and the same
+    keyword occurrences are routed alike -/
+theorem only_first_value_counts (m : Mechs) (b : Backend) (first : Bytes) (rest rest' : List Bytes)
+    (hn : (first :: rest).any (containsSub kwNTLM) = (first :: rest').any (containsSub kwNTLM))
+    (hg : (first :: rest).any (containsSub kwNegotiate) = (first :: rest').any (containsSub kwNegotiate))
+    (hb : (first :: rest).any (containsSub kwBasic) = (first :: rest').any (containsSub kwBasic)) :
+    route m b (classify (first :: rest)) = route m b (classify (first :: rest')) := by
+  have : classify (first :: rest) = classify (first :: rest') := by
+    simp only [classify, List.headD_cons, hn, hg, hb]
+  rw [this]
+
+/-- non-vacuity: `basic YTpw` ("a:p", scheme in lower case) reaches the handler as `a` -/
+example :
+    route ⟨true, false, true, false⟩ ⟨fun u p => u == [97] && p == [112], fun _ => none, fun _ => false, fun _ => none⟩
+      (classify [[98, 97, 115, 105, 99, 32, 89, 84, 112, 119], [66, 97, 115, 105, 99]]) = .handler (some [97]) := by decide
+
+/-! ### The base64 decoder is the standard one -/
+
+
+theorem b64val_char : ∀ s : Fin 64, b64val (b64char s.val) = some s.val ∧ b64char s.val ≠ 61 := by decide
+
+theorem b64val_char' (s : Nat) (h : s < 64) : b64val (b64char s) = some s ∧ b64char s ≠ 61 :=
+  b64val_char ⟨s, h⟩
+
+theorem ofNat_toNat (a : UInt8) : UInt8.ofNat a.toNat = a := by simp
+
+theorem b64_roundtrip (x : Bytes) : b64decode (b64encode x) = some x := by
+  induction x using b64encode.induct with
+  | case1 => simp [b64encode, b64decode]
+  | case2 a =>
+    have ha := a.toNat_lt
+    have h1 := b64val_char' (a.toNat / 4) (by omega)
+    have h2 := b64val_char' (a.toNat % 4 * 16) (by omega)
+    simp only [b64encode, b64decode, and_self, if_true, h1.1, h2.1, Option.bind_eq_bind, Option.bind_some]
+    have : (a.toNat / 4 * 64 + a.toNat % 4 * 16) / 16 = a.toNat := by omega
+    rw [this, ofNat_toNat]
+  | case3 a b =>
+    have ha := a.toNat_lt
+    have hb := b.toNat_lt
+    have h1 := b64val_char' (a.toNat / 4) (by omega)
+    have h2 := b64val_char' (a.toNat % 4 * 16 + b.toNat / 16) (by omega)
+    have h3 := b64val_char' (b.toNat % 16 * 4) (by omega)
+    simp only [b64encode, b64decode, and_self, if_true, h1.1, h2.1, h3.1, h3.2, if_false, Option.bind_eq_bind, Option.bind_some]
+    have e1 : ((a.toNat / 4 * 64 + (a.toNat % 4 * 16 + b.toNat / 16)) * 64 + b.toNat % 16 * 4) / 1024 = a.toNat := by omega
+    have e2 : ((a.toNat / 4 * 64 + (a.toNat % 4 * 16 + b.toNat / 16)) * 64 + b.toNat % 16 * 4) / 4 % 256 = b.toNat := by omega
+    rw [e1, e2, ofNat_toNat, ofNat_toNat]
+  | case4 a b c rest ih =>
+    have ha := a.toNat_lt
+    have hb := b.toNat_lt
+    have hc := c.toNat_lt
+    have h1 := b64val_char' (a.toNat / 4) (by omega)
+    have h2 := b64val_char' (a.toNat % 4 * 16 + b.toNat / 16) (by omega)
+    have h3 := b64val_char' (b.toNat % 16 * 4 + c.toNat / 64) (by omega)
+    have h4 := b64val_char' (c.toNat % 64) (by omega)
+    simp only [b64encode, b64decode, h4.2, and_false, if_false, h1.1, h2.1, h3.1, h4.1, ih, Option.bind_eq_bind, Option.bind_some]
+    have e1 : (((a.toNat / 4 * 64 + (a.toNat % 4 * 16 + b.toNat / 16)) * 64 + (b.toNat % 16 * 4 + c.toNat / 64)) * 64 + c.toNat % 64) / 65536 = a.toNat := by omega
+    have e2 : (((a.toNat / 4 * 64 + (a.toNat % 4 * 16 + b.toNat / 16)) * 64 + (b.toNat % 16 * 4 + c.toNat / 64)) * 64 + c.toNat % 64) / 256 % 256 = b.toNat := by omega
+    have e3 : (((a.toNat / 4 * 64 + (a.toNat % 4 * 16 + b.toNat / 16)) * 64 + (b.toNat % 16 * 4 + c.toNat / 64)) * 64 + c.toNat % 64) % 256 = c.toNat := by omega
+    rw [e1, e2, e3, ofNat_toNat, ofNat_toNat, ofNat_toNat]
+
+theorem cutColon_of (u p : Bytes) (hu : (58 : UInt8) ∉ u) : cutColon (u ++ 58 :: p) = some (u, p) := by
+  induction u with
+  | nil => simp [cutColon]
+  | cons x xs ih =>
+    have hx : x ≠ 58 := fun e => hu (by simp [e])
+    have hxs : (58 : UInt8) ∉ xs := fun e => hu (List.mem_cons_of_mem _ e)
+    simp [cutColon, hx, ih hxs]
+
+/-- **Credentials sent the standard way are read back exactly**: `Basic ` followed by the standard
+    base64 of `u:p` (`u` without a colon) is parsed as the pair `(u, p)` — for every `u` and `p`. -/
+theorem standard_basic_parsed (u p : Bytes) (hu : (58 : UInt8) ∉ u) :
+    credOf (kwBasic ++ [32] ++ b64encode (u ++ [58] ++ p)) = .basic u p := by
+  have hd : (kwBasic ++ [32] ++ b64encode (u ++ [58] ++ p)).drop 6 = b64encode (u ++ [58] ++ p) := by
+    simp [kwBasic]
+  have ht : (kwBasic ++ [32] ++ b64encode (u ++ [58] ++ p)).take 6 = kwBasic ++ [32] := by
+    simp [kwBasic]
+  have hl : (kwBasic ++ [32] ++ b64encode (u ++ [58] ++ p)).length ≥ 6 := by simp [kwBasic]
+  have hne : (kwBasic ++ [32] ++ b64encode (u ++ [58] ++ p)) ≠ [] := by simp [kwBasic]
+  have hcut : cutColon (u ++ [58] ++ p) = some (u, p) := by simpa using cutColon_of u p hu
+  have hf : eqFold (kwBasic ++ [32]) (kwBasic ++ [32]) = true := by decide
+  unfold credOf
+  rw [if_neg hne, hd, ht, b64_roundtrip]
+  simp only [hcut, hl, hf, and_self, if_true]
+
+/-- **Right credentials are let in**: with `local` enabled and NTLM not, a single standard Basic
+    value whose pair the backend confirms reaches the tunnel handler as that user. -/
+theorem right_basic_accepted (m : Mechs) (b : Backend) (u p : Bytes) (hu : (58 : UInt8) ∉ u)
+    (hb : m.basic = true) (hn : m.ntlm = false) (hok : b.basicOk u p = true) :
+    route m b (classify [kwBasic ++ [32] ++ b64encode (u ++ [58] ++ p)]) = .handler (some u) := by
+  have hc := standard_basic_parsed u p hu
+  have hhas : containsSub kwBasic (kwBasic ++ [32] ++ b64encode (u ++ [58] ++ p)) = true := by
+    simp [kwBasic, containsSub, List.isPrefixOf]
+  generalize kwBasic ++ [32] ++ b64encode (u ++ [58] ++ p) = v at hc hhas
+  simp [route, classify, hc, hhas, hb, hn, basicHandler, hok]
+
 /-- non-vacuity: local+openid, correct Basic credentials reach the handler as that user -/
 example :
     route ⟨true, false, true, false⟩ ⟨fun u p => u == [97] && p == [112], fun _ => none, fun _ => false, fun _ => none⟩
